@@ -32,6 +32,10 @@ pub struct SchedConvCase {
     /// (0 = just a scheduling point), then pauses once more and half-closes
     #[serde(default)]
     pub feed: Option<Vec<u16>>,
+    /// every k-th write on the transport reports `Interrupted` (0 = never): transparent to anyone
+    /// who writes with write_all / io::copy
+    #[serde(default)]
+    pub intr: u8,
     pub tape: Vec<u8>,
 }
 
@@ -108,6 +112,9 @@ pub fn run_sched_conv(sc: &SchedConvCase) -> SchedObs {
         let rendered = render(&sc.case.conv);
         let bytes = rendered.with_nonce(b"00000000");
         let (client, conn) = rt::mem::pair();
+        if sc.intr > 0 {
+            client.set_write_interrupts(sc.intr as usize);
+        }
         // the client stream in the generated segmentation: queued up front, or sent by a client
         // task with pauses
         let mut cuts: Vec<usize> = sc.cuts.iter().map(|c| (*c).min(bytes.len())).collect();
@@ -411,7 +418,7 @@ pub fn c01_strategy() -> BoxedStrategy<SchedConvCase> {
             let groups = partition_groups(n, mask);
             let own_tasks = groups.len() == n;
             let script = vec![Step::Send { from: 0, to: 0 }, Step::HalfClose];
-            SchedConvCase { case: ConvCase { conv, progs, script, transport: Transport::Mem }, groups, collect_first: false, enter_order: if own_tasks { order } else { None }, cuts, hold_after_read: None, feed: None, tape }
+            SchedConvCase { case: ConvCase { conv, progs, script, transport: Transport::Mem }, groups, collect_first: false, enter_order: if own_tasks { order } else { None }, cuts, hold_after_read: None, feed: None, intr: if tape.len() % 4 == 3 { 2 + (tape.len() % 3) as u8 } else { 0 }, tape }
         })
         .boxed()
 }
@@ -525,7 +532,7 @@ pub fn c11_strategy() -> BoxedStrategy<SchedConvCase> {
                     // read the streamed body to its end, keep the request, take the successor
                     let mut groups: Vec<Vec<usize>> = vec![(0..=p).collect()];
                     groups.push((p + 1..n).collect());
-                    SchedConvCase { case, groups, collect_first: false, enter_order: None, cuts, hold_after_read: Some(p), feed: None, tape }
+                    SchedConvCase { case, groups, collect_first: false, enter_order: None, cuts, hold_after_read: Some(p), feed: None, intr: 0, tape }
                 }
                 (Some(p), 2) if p + 1 < n => {
                     // answer the streamed one (its handler reads the body), successors follow: plain pipeline on two tasks;
@@ -541,7 +548,7 @@ pub fn c11_strategy() -> BoxedStrategy<SchedConvCase> {
                         }
                     }
                     let groups: Vec<Vec<usize>> = vec![(0..=p).collect(), (p + 1..n).collect()];
-                    SchedConvCase { case, groups, collect_first: false, enter_order: None, cuts, hold_after_read: None, feed: None, tape }
+                    SchedConvCase { case, groups, collect_first: false, enter_order: None, cuts, hold_after_read: None, feed: None, intr: 0, tape }
                 }
                 _ => {
                     // collect `avail` requests before answering any
@@ -549,7 +556,7 @@ pub fn c11_strategy() -> BoxedStrategy<SchedConvCase> {
                     if avail < n {
                         groups.push((avail..n).collect());
                     }
-                    SchedConvCase { case, groups, collect_first: true, enter_order: None, cuts, hold_after_read: None, feed: None, tape }
+                    SchedConvCase { case, groups, collect_first: true, enter_order: None, cuts, hold_after_read: None, feed: None, intr: 0, tape }
                 }
             }
         })
